@@ -173,7 +173,9 @@ func (calc *convexHullCalculator) reduce(inputPts []float64) []float64 {
 	polyPts := calc.computeOctRing(inputPts)
 
 	if polyPts == nil {
-		return inputPts
+		// return a copy: the caller sorts the result in place and inputPts
+		// is the array passed to ConvexHull/ConvexHullFlat
+		return append([]float64(nil), inputPts...)
 	}
 
 	// add points defining polygon
